@@ -23,6 +23,7 @@ RULE = ("Zone ids sampled from all ids known to both tz libraries plus a fixed a
         "every instant (offset, abbreviation) of the source zone equals (a) the harness's onset interpreter applied to vt and (b) "
         "vt.to_tz(tzp, lookup_tzid=False); (c) from_tzinfo(converted zone, id, first, last) serialises identically to vt. "
         "Non-trivial: the zone has a transition inside the window; distinct by hash.")
+RULE += ' Rounds 7-8: a quarter of the windows are 1-366 days long and placed around an offset change; 17 zones renamed while keeping their offsets with windows spanning the rename.'
 ASSUMPTIONS = ["ground truth for a provider is that provider's own tz library (zoneinfo / pytz) on the installed tzdata"]
 REQUIRED_CLASSES = ["has-transition", "no-transition", "provider:zoneinfo", "provider:pytz", "instant:at-transition", "history:same-id-converted-for-another-window"]
 
